@@ -414,8 +414,9 @@ def _apply_append(I, e):
     new = SSeq(wrap(n), lambda j: subst(tmpl, [(idx, j)]), "loop-append")
     if lst.items:
         new = SSeq.from_list(lst.items).concat(new)
-    lst.pvc_symbolic_tail = new  # PyList turned symbolic: handled by interp via pvc hooks
-    raise Unsupported("append to list in summarised loop (symbolic list objects not implemented)")
+    new.pvc_type = "list"
+    # the python list object is mutated in place: every reference to it now sees the symbolic-length list
+    I.replace_object(lst, new)
 
 
 def _apply_mat_stores(I, stores):
